@@ -214,6 +214,9 @@ class Analyzer:
                 elif a not in D:
                     self.early.add(a)
             elif isinstance(n, ast.Call):
+                # in-place mutation of a field's object (`self.x.add(..)`): a write for the purpose of "const" fields
+                if isinstance(n.func, ast.Attribute) and n.func.attr in MUTATORS and is_self_attr(n.func.value):
+                    self.may.add(n.func.value.attr)
                 sup = is_super_call(n)
                 if sup:
                     self._apply_call(self.callee(sup, True), D)
@@ -447,17 +450,24 @@ class Analyzer:
             self.expr(st.test, D, cond)
             return False
         self.dynamic = True
+        self.unknown_stmt = type(st).__name__
         return False
 
 
 _cache: dict = {}
 
 
+VISITED: set = set()  # (class, method) pairs analysed since the last clear (reachability from an entry method)
+
+
 def summarize(world: World, cls: ClassInfo, owner: ClassInfo, fn: ast.FunctionDef, depth: int = 0) -> Summary:
     key = (cls.module, cls.name, owner.module, owner.name, fn.name)
+    VISITED.add((cls.name, fn.name))
     if key in _cache:
         return _cache[key]
-    _cache[key] = Summary(dynamic=True)  # recursion guard
+    # recursion guard: a recursive activation starts with at least the outer activation's definite set, so its early
+    # reads are among those the outer analysis records for the same body; contributing nothing is sound
+    _cache[key] = Summary()
     a = Analyzer(world, cls, owner, depth)
     D: set[str] = set()
     fell = not a.block(fn.body, D, {}, frozenset())
